@@ -625,14 +625,15 @@ fn main() {
         let ts_sdl = to_type_system(&tsdoc);
         let (out_json, tag, ts_json) = json_route(&jt);
         let ts_json = ts_json.expect("witness JSON loads");
-        if label != "meta-type-fragment" {
-            cases.push(format!("CRoutes false {} Full {} [] {} {} {} {} {}", coq_bool(guard), coq_bool(meta), coq_name, ast_coq::tsdoc(&tsdoc), j.coq(), cschema(&ts_sdl), out_json),
-                json!({"kind": "routes", "label": if label == "shadow-root" { "shadow-root" } else { "witness" }, "witness": coq_name, "meta": meta, "sdl": sdl, "json": jt, "json_route": tag}));
-        }
         let doc = load_operation(doc_text).expect("witness document parses");
         let e1: Vec<_> = check_operation(&ts_sdl, &doc).iter().map(error_summary).collect();
         let e2: Vec<_> = check_operation(&ts_json, &doc).iter().map(error_summary).collect();
         n_witness += 1; if e1.is_empty() != e2.is_empty() { n_witness_reproduced += 1; }
+        if label != "meta-type-fragment" {
+            cases.push(format!("CRoutes false {} Full {} [] {} {} {} {} {} [({}, {}, {})]", coq_bool(guard), coq_bool(meta), coq_name, ast_coq::tsdoc(&tsdoc), j.coq(), cschema(&ts_sdl), out_json,
+                               ast_coq::opdoc(&doc), coq_bool(e1.is_empty()), coq_bool(e2.is_empty())),
+                json!({"kind": "routes", "label": if label == "shadow-root" { "shadow-root" } else { "witness" }, "witness": coq_name, "meta": meta, "sdl": sdl, "json": jt, "json_route": tag}));
+        }
         cases.push(format!("CVerdict {} {} {}", coq_str(label), coq_bool(e1.is_empty()), coq_bool(e2.is_empty())),
             json!({"kind": "verdict", "label": label, "witness": coq_name, "sdl": sdl, "json": jt, "doc": doc_text, "errors_sdl": format!("{e1:?}"), "errors_json": format!("{e2:?}")}));
         if dump_corpus {
@@ -699,19 +700,18 @@ fn main() {
         // JSON route
         let (out_json, tag, ts_json) = json_route(&jt);
         let descr = json!({"kind": "routes", "label": label, "style": format!("{style:?}"), "meta": meta, "sdl": sdl, "json": jt, "json_route": tag});
-        let term = |strict: bool| format!("CRoutes {} {} {:?} {} [{}]%nat {} {} {} {} {}", coq_bool(strict), coq_bool(true), style, coq_bool(meta), jorder.iter().map(|k| k.to_string()).collect::<Vec<_>>().join("; "), coq_model(&m), ast_coq::tsdoc(&tsdoc), j.coq(), cschema(&ts_sdl), out_json);
-        cases.push(term(false), descr.clone());
+        let term = |strict: bool, docs: &str| format!("CRoutes {} {} {:?} {} [{}]%nat {} {} {} {} {} {}", coq_bool(strict), coq_bool(true), style, coq_bool(meta), jorder.iter().map(|k| k.to_string()).collect::<Vec<_>>().join("; "), coq_model(&m), ast_coq::tsdoc(&tsdoc), j.coq(), cschema(&ts_sdl), out_json, docs);
         st.n_routes += 1;
         st.n_guard += 1;
         if samples.len() < 2 { samples.push(json!({"kind": "routes", "label": label, "style": format!("{style:?}"), "meta": meta, "sdl": sdl, "json_route": tag})); }
-        let Some(ts_json) = ts_json else { direct_failures.push(json!({"what": format!("the JSON route rejects a standard introspection result: {tag}"), "classes": [], "sdl": sdl, "json": jt})); continue; };
+        let Some(ts_json) = ts_json else { cases.push(term(false, "[]"), descr.clone()); direct_failures.push(json!({"what": format!("the JSON route rejects a standard introspection result: {tag}"), "classes": [], "sdl": sdl, "json": jt})); continue; };
         // the unguarded comparison, on a few models where it is expected to differ
         let unused_builtin: Vec<&str> = BUILTIN_SCALARS.iter().filter(|b| !listed.iter().any(|t| t.name == **b)).cloned().collect();
         if (meta || !unused_builtin.is_empty()) && st.n_strict_equiv < 6 {
             st.n_strict_equiv += 1;
             let mut d = descr.clone();
             d["strict"] = json!(true); d["unused_builtin_scalars"] = json!(unused_builtin); d["shadow_root"] = json!(label == "shadow-root");
-            cases.push(term(true), d);
+            cases.push(term(true, "[]"), d);
         }
         // what the printers see on the JSON route
         let ast = type_system_to_ast(&ts_json);
@@ -755,6 +755,7 @@ fn main() {
         if meta { docs.push(("meta-type-fragment".into(), "query T { __typename }\nfragment G on __Type { name }\n".into())); }
         if let Some(b) = unused_builtin.first() { docs.push(("unused-builtin-variable".into(), format!("query Q($v: {b}) {{ __typename }}\n"))); }
         let docs_for_cli: Vec<(String, String)> = docs.clone();
+        let mut doc_terms: Vec<String> = vec![];
         for (dl, text) in docs {
             let doc = match load_operation(&text) { Ok(d) => d, Err(_) => continue };
             let e1: Vec<_> = check_operation(&ts_sdl, &doc).iter().map(error_summary).collect();
@@ -762,9 +763,13 @@ fn main() {
             st.n_docs += 1;
             if e1.is_empty() != e2.is_empty() { st.n_verdict_diff += 1; }
             distinct.insert(format!("{sdl}\n---\n{text}"));
+            doc_terms.push(format!("({}, {}, {})", ast_coq::opdoc(&doc), coq_bool(e1.is_empty()), coq_bool(e2.is_empty())));
             cases.push(format!("CVerdict {} {} {}", coq_str(&dl), coq_bool(e1.is_empty()), coq_bool(e2.is_empty())),
                 json!({"kind": "verdict", "label": dl, "sdl": sdl, "json": jt, "doc": text, "errors_sdl": format!("{e1:?}"), "errors_json": format!("{e2:?}")}));
         }
+
+        // the both-routes case, with the documents and the real verdicts (the checker model of C03 is run on both schema documents in Coq)
+        cases.push(term(false, &format!("[{}]", doc_terms.join("; "))), descr.clone());
 
         // the real CLI on two projects that differ only in the schema file (route selection by extension,
         // resolve_loaded_schema, extend_loaded_schema, check, generate)
